@@ -62,7 +62,31 @@ theorem toeplitz_fiber {n : Nat} (u : Fin n → α) (b k : Fin n) :
     · by_cases hkb : k.1 ≤ b.1
       · simp only [hkb, and_true, sum_ite_val]
         rw [dif_pos (show b.1 - k.1 < n by have := b.2; omega)]
+        simp
       · simp [hkb]
     · rw [sum_ite_val]
+
+theorem toeplitzQF_eq {n d : Nat} (U V : Mat α n d) (k : Fin n) :
+    toeplitzQF U V k = ∑ c, ∑ b, (∑ a, if absDiff a b = k then U a c else 0) * V b c := by
+  simp only [toeplitz_fiber (fun a => U a _), toeplitzQF, sumFin_eq_sum, sub_mul, add_mul, Finset.sum_sub_distrib,
+    Finset.sum_add_distrib, dite_mul, ite_mul, zero_mul]
+  by_cases hk : k.1 = 0 <;> simp [hk]
+
+theorem correct_toeplitz (n : Nat) : Correct α (.toeplitz n) := by
+  intro θ δ d U V
+  have hD : dDenote (.toeplitz n) θ δ = fun a b => δ (absDiff a b) := rfl
+  rw [hD, bilS_eq_sum]
+  show (sumFin n fun k => toeplitzQF U V k * δ k) = _
+  simp only [sumFin_eq_sum, toeplitzQF_eq, Finset.sum_mul, ite_mul, zero_mul]
+  rw [Finset.sum_comm]
+  refine Finset.sum_congr rfl fun c _ => ?_
+  rw [Finset.sum_comm]
+  conv_rhs => rw [Finset.sum_comm]
+  refine Finset.sum_congr rfl fun b _ => ?_
+  rw [Finset.sum_comm]
+  refine Finset.sum_congr rfl fun a _ => ?_
+  rw [Finset.sum_ite_eq]
+  simp only [Finset.mem_univ, if_true]
+  ring
 
 end LinOp.C07
